@@ -526,11 +526,10 @@ theorem unOp_wf (a : IntervalDomain) (op : UnOp) (ha : a.WF) (hw1 : 1 < a.interv
 theorem zeroExtend_dom_interval (a : IntervalDomain) (w' : Nat) :
     (a.zeroExtend w').interval = a.interval.zeroExtend w' := rfl
 
-/-- **C02-cast (soundness).** `w'` is the result width; extensions require `a.w ≤ w'`, the count casts
-that the bit length of the operand fits into the result (`hfit`, true for operands of at most 64 bit). -/
+/-- **C02-cast (soundness).** `w'` is the result width; extensions require `a.w ≤ w'`; the count casts
+hold for all operand and result widths (repaired: `Top` if the bit length does not fit the result). -/
 theorem cast_sound (a : IntervalDomain) (op : CastOp) (w' : Nat) (ha : a.WF) (hw' : 1 < w')
     (hext : (op = .intZExt ∨ op = .intSExt) → a.interval.w ≤ w')
-    (hfit : (op = .popCount ∨ op = .lzCount) → (a.interval.w : Int) ≤ smax w')
     {x z : Int} (hx : a.Mem x) (hz : concCast op a.interval.w w' x = some z) : (a.cast op w').Mem z := by
   cases op <;> simp only [concCast] at hz
   · cases hz
@@ -547,17 +546,16 @@ theorem cast_sound (a : IntervalDomain) (op : CastOp) (w' : Nat) (ha : a.WF) (hw
   · cases hz
   · cases hz
   · cases hz
-    exact popCount_sound a ha w' hw' (hfit (.inl rfl)) hx
+    exact popCount_sound a ha w' hw' hx
   · cases hz
-    exact lzCount_sound a ha w' hw' (hfit (.inr rfl)) hx
+    exact lzCount_sound a ha w' hw' hx
 
 theorem czext_inRange (w w' : Nat) (h : 0 < w') (x : Int) : InRange w' (czext w w' x) := wrap_inRange _ h _
 theorem csext_inRange (w w' : Nat) (h : 0 < w') (x : Int) : InRange w' (csext w w' x) := wrap_inRange _ h _
 
 /-- **C02-cast (well-formedness).** -/
 theorem cast_wf (a : IntervalDomain) (op : CastOp) (w' : Nat) (ha : a.WF) (hw' : 1 < w')
-    (hext : (op = .intZExt ∨ op = .intSExt) → a.interval.w ≤ w')
-    (hfit : (op = .popCount ∨ op = .lzCount) → (a.interval.w : Int) ≤ smax w') :
+    (hext : (op = .intZExt ∨ op = .intSExt) → a.interval.w ≤ w') :
     (a.cast op w').WF ∧ (a.cast op w').interval.w = w' := by
   have hw0' : 0 < w' := by omega
   have htop : (IntervalDomain.newTop w').WF ∧ (IntervalDomain.newTop w').interval.w = w' :=
@@ -598,8 +596,8 @@ theorem cast_wf (a : IntervalDomain) (op : CastOp) (w' : Nat) (ha : a.WF) (hw' :
   · exact htop
   · exact htop
   · exact htop
-  · exact popCount_wf a ha w' hw' (hfit (.inl rfl))
-  · exact lzCount_wf a ha w' hw' (hfit (.inr rfl))
+  · exact popCount_wf a ha w' hw'
+  · exact lzCount_wf a ha w' hw'
 
 /-! ### `RegisterDomain::subpiece` -/
 
@@ -739,7 +737,6 @@ example : (exA.binOp (fun _ _ _ => none) .intMult exB).Mem (cmul 8 (-3) 30) :=
 
 example : exA.binOp (fun _ _ _ => none) .intAdd exB = ⟨⟨8, 7, 35, 1⟩, some 45, some 3, 3⟩ := by decide
 example : (exA.cast .intZExt 16).Mem (czext 8 16 (-1)) :=
-  cast_sound exA .intZExt 16 exA_wf (by decide) (by intro _; decide) (by intro h; rcases h with h | h <;> cases h)
-    (x := -1) (by decide) rfl
+  cast_sound exA .intZExt 16 exA_wf (by decide) (by intro _; decide) (x := -1) (by decide) rfl
 
 end CweModel.C02
